@@ -627,26 +627,6 @@ Proof.
   exists r. split; [exact Hr2|apply Hok1; exact Hr].
 Qed.
 
-(** After a body read -- success or error -- [proceed] does not panic. *)
-Theorem then_proceed_body f r w cap :
-  i_holder f = HRecvBody -> c_reader (i_call f) = Some r -> reader_ok r ->
-  let f1 := match recv_body_read f w cap with Ok (f', _, _) => f' | _ => f end in
-  match recv_body_proceed f1 with
-  | Panic _ => False
-  | Err _ => False
-  | Ok None => True
-  | Ok (Some (t, f2)) => f2 = f1 /\ ((t = TRedirect /\ is_redirect f1 = true) \/ t = TCleanup)
-  end.
-Proof.
-  intros Hh Hr Hok. cbv zeta. pose proof (recv_body_read_safe f r w cap Hh Hr Hok) as H.
-  assert (H1 : exists f1 r1, (match recv_body_read f w cap with Ok (f', _, _) => f' | _ => f end) = f1 /\
-                             i_holder f1 = HRecvBody /\ c_reader (i_call f1) = Some r1).
-  { destruct (recv_body_read f w cap) as [[[f' i] o]|e|s].
-    - destruct H as (_ & _ & _ & r' & -> & _). exists (set_call f (set_reader (i_call f) (Some r'))), r'.
-      cbn. auto.
-    - exists f, r. auto.
-    - contradiction. }
-  destruct H1 as (f1 & r1 & -> & Hh1 & Hr1).
-  pose proof (recv_body_proceed_safe f1 r1 Hh1 Hr1) as Hp.
-  destruct (recv_body_proceed f1) as [[[t f2]|]|e|s]; try exact Hp. exact I.
-Qed.
+(** After a body read -- success or error -- [proceed] does not panic: [then_proceed_body_real] in
+    proofs/C12_after_err.v (after a failed read the flow is [recv_body_after_err f w cap], the state
+    the failed call really leaves; that file also has the schedules that run through errors). *)
